@@ -1,5 +1,5 @@
 #!/venv/bin/python
-'''Summarises a mutation-sweep JSON-lines file into evidence/mutsweep_summary.json (and prints it).'''
+'''Summarises a mutation-sweep JSON-lines file into sweep/mutsweep_summary.json (and prints it).'''
 import collections
 import json
 import os
@@ -34,7 +34,7 @@ out = {'mutants': len(recs), 'by_outcome': dict(by),
        'note': 'survivors of the repository suite were run against the quick tier of the two checks mapped to the file '
                '(fast-fail); "undetected" mutants are reviewed in DESIGN.md 12.7 (equivalent / not property-breaking / gap)'}
 os.makedirs(os.path.join(ROOT, 'evidence'), exist_ok=True)
-json.dump(out, open(os.path.join(ROOT, 'evidence', 'mutsweep_summary.json'), 'w'), indent=1)
+json.dump(out, open(os.path.join(ROOT, 'sweep', 'mutsweep_summary.json'), 'w'), indent=1)
 print(json.dumps({k: out[k] for k in ('mutants', 'by_outcome')}, indent=1))
 for u in undet[:400]:
     print('UNDETECTED', u['file'], u['k'], u['desc'])
